@@ -22,6 +22,8 @@ import Plotink.Gen.parseLengthWithUnits
 import Plotink.Gen.unitsToUserUnits
 import Plotink.Gen.userUnitToUnits
 import Plotink.Gen.vb_scale
+import Plotink.Gen.getLength
+import Plotink.Gen.getLengthInches
 import Plotink.Gen.subdivideCubicPath
 import Plotink.Gen.rtree_Index
 import Plotink.Gen.grid_Index
@@ -103,6 +105,8 @@ def genHandle (toks : List String) : String :=
       | "unitsToUserUnits", [t, ref] => Gen.unitsToUserUnits R p t ref
       | "userUnitToUnits", [d, u] => Gen.userUnitToUnits R p d u
       | "vb_scale", [vb, par, w, h] => Gen.vb_scale R p vb par w h
+      | "getLength", [attr, dflt] => Gen.getLength R p attr dflt        -- attr: the document attribute text or None
+      | "getLengthInches", [attr] => Gen.getLengthInches R p attr
       | "tpoint", [a, b, t] => Gen.tpoint R p a b t
       | "beziersplitatt", [c, t] => Gen.beziersplitatt R p c t
       | "move_dist_lt", [a, b, c, d] => Gen.move_dist_lt R p a b c d
